@@ -216,13 +216,14 @@ def normalized_index_expression(indices, shape, int_to_slice=False):
     # Turn single indices into length-1 slices if desired
     for (i, idx), n in zip(enumerate(indices), shape):
         if np.isscalar(idx):
+            idx_in = idx
             if idx < 0:
                 idx += n
 
-            if idx >= n:
+            if idx < 0 or idx >= n:
                 raise IndexError('Index {} is out of bounds for axis '
                                  '{} with size {}.'
-                                 ''.format(idx, i, n))
+                                 ''.format(idx_in, i, n))
             if int_to_slice:
                 indices[i] = slice(idx, idx + 1)
 
